@@ -1,0 +1,28 @@
+//go:build verif
+
+// Contracts for the Remote Asset fetch path (C01), checked by /verif (govc). Comment-only file.
+//
+// fetchItem downloads a blob and stores it through the cache's Put, which verifies size and
+// digest. What is decided here: a digest pinned by the client (checksum.sri qualifier) is the
+// digest the blob is stored and acknowledged under - never a digest computed from the bytes that
+// happened to arrive - and the blob goes into the CAS.
+
+package server
+
+//@ extern net/url.Parse(rawURL)
+//@   pure
+//@   ensures (result1 == nil) <==> (result0 != nil)
+//@ extern net/http.NewRequest(method, url, body)
+//@   pure
+//@   ensures (result1 == nil) <==> (result0 != nil)
+//@ extern (*net/http.Client).Do(c, req)
+//@   pure
+//@   ensures (result1 == nil) ==> (result0 != nil && result0.Body != nil)
+
+//@ func (s *grpcServer) fetchItem(ctx context.Context, uri string, headers http.Header, expectedHash string) (string, int64, error)
+//@   serves C01
+//@   requires s != nil && s.cache != nil && s.accessLogger != nil && s.errorLogger != nil && ctx != nil
+//@   noframe
+//@   nosafety
+//@   ensures[C01] pinned: (result2 == nil && expectedHash != "") ==> result0 == expectedHash
+//@   call Cache.Put#* asserts[C01] pinned: arg2 == 1 && (expectedHash != "" ==> arg3 == expectedHash)
